@@ -80,6 +80,8 @@ Record wopts := mkwopts {
 
 (* mtbl_writer_options_set_block_size clamps *)
 Definition clamp_block_size (n : N) : N := if n <? MIN_BLOCK_SIZE then MIN_BLOCK_SIZE else n.
+(* mtbl_writer_options_set_block_restart_interval: an interval of 0 keys means a restart at every key (repair F13) *)
+Definition clamp_restart_interval (n : N) : N := if n <? MIN_BLOCK_RESTART_INTERVAL then MIN_BLOCK_RESTART_INTERVAL else n.
 
 Record writer := mkwriter {
   w_opt : wopts;
